@@ -2,7 +2,12 @@
   The kernels regenerated from the current Rust source by tools/extract.py (`Umya.Gen.*`) compute
   exactly what the hand-written sheet model uses (`Umya.Sheet.adjIns/adjRem/isRem/…`).
   These proofs run against whatever the translator produced on this run: an equivalent rewrite of a
-  kernel still proves, a changed comparison or operator does not.
+  kernel still proves (swapped branches under a negated condition, early returns, reordered or regrouped
+  comparisons, hoisted locals), a changed comparison or operator does not.
+
+  The proof script does not follow the shape of the generated term: it unfolds the result combinators to
+  `if`s over arithmetic propositions, splits EVERY conditional on both sides, and leaves linear arithmetic
+  to `omega`.
 -/
 import Umya.Model.Gen.Kernels
 import Umya.Model.Sheet
@@ -10,44 +15,60 @@ namespace Umya.Gen
 open Umya.Coord (Res)
 open Umya.Sheet
 
+theorem bind_ok' {α β} (a : α) (f : α → Res β) : Res.bind (.ok a) f = f a := rfl
+theorem bind_panic' {α β} (f : α → Res β) : Res.bind (.panic : Res α) f = .panic := rfl
+theorem bind_ite' {α β} (c : Prop) [Decidable c] (a b : Res α) (f : α → Res β) :
+    Res.bind (if c then a else b) f = if c then Res.bind a f else Res.bind b f := by
+  split <;> rfl
+
+/-- unfold the combinators (pushing `bind` through every `if`), split every `if` of both sides, close by
+    `simp_all` + `omega` -/
+macro "kernel_eq" : tactic => `(tactic|
+  (simp only [rIte, rAnd, rOr, rNot, rGe, rGt, rLe, rLt, rEq, rNe, rAdd, rSub, bind_ok', bind_panic', bind_ite',
+      Bool.and_eq_true, Bool.or_eq_true, decide_eq_true_eq, Bool.not_eq_true', decide_eq_false_iff_not,
+      Bool.true_eq_false, Bool.false_eq_true, if_true, if_false, ite_true, ite_false]
+   repeat' split
+   all_goals (first
+     | rfl
+     | omega
+     | (simp_all <;> omega)
+     | (simp_all)
+     | (exfalso; simp_all <;> omega))))
+
 theorem gen_insert (n r o : Nat) : adjustment_insert_coordinate n r o = .ok (adjIns n r o) := by
   unfold adjustment_insert_coordinate adjIns
-  by_cases h1 : n ≥ r <;> by_cases h2 : o = 0 <;> (simp [rIte, rAnd, rOr, rNot, rGe, rGt, rLe, rLt, rEq, rNe, rAdd, rSub, Res.bind, h1, h2] <;> try omega)
+  kernel_eq
 
 theorem gen_remove (n r o : Nat) : adjustment_remove_coordinate n r o = adjRem n r o := by
   unfold adjustment_remove_coordinate adjRem
-  by_cases h1 : n ≥ r <;> by_cases h2 : o = 0 <;> by_cases h3 : o ≤ n <;>
-    (simp [rIte, rAnd, rOr, rNot, rGe, rGt, rLe, rLt, rEq, rNe, rAdd, rSub, Res.bind, h1, h2, h3] <;> try omega)
+  kernel_eq
 
 theorem gen_is_remove (n r o : Nat) : is_remove_coordinate n r o = .ok (isRem n r o) := by
   unfold is_remove_coordinate isRem
-  by_cases h1 : r = 0 <;> by_cases h2 : o = 0 <;> by_cases h3 : n ≥ r <;> by_cases h4 : n < r + o <;>
-    (simp [rIte, rAnd, rOr, rNot, rGe, rGt, rLe, rLt, rEq, rNe, rAdd, rSub, Res.bind, h1, h2, h3, h4] <;> try omega)
+  kernel_eq
 
 theorem gen_row_insert (n r o : Nat) : row_adjustment_insert_value n r o = .ok (adjInsV n r o) := by
   unfold row_adjustment_insert_value adjInsV
-  by_cases h1 : n ≥ r <;> (simp [rIte, rAnd, rOr, rNot, rGe, rGt, rLe, rLt, rEq, rNe, rAdd, rSub, Res.bind, h1] <;> try omega)
+  kernel_eq
 
 theorem gen_row_remove (n r o : Nat) : row_adjustment_remove_value n r o = adjRemV n r o := by
   unfold row_adjustment_remove_value adjRemV
-  by_cases h1 : n ≥ r <;> by_cases h3 : o ≤ n <;> (simp [rIte, rAnd, rOr, rNot, rGe, rGt, rLe, rLt, rEq, rNe, rAdd, rSub, Res.bind, h1, h3] <;> try omega)
+  kernel_eq
 
 theorem gen_row_is_remove (n r o : Nat) : row_is_remove_value n r o = isRemV n r o := by
   unfold row_is_remove_value isRemV
-  by_cases h1 : n ≥ r <;> by_cases h2 : 1 ≤ r + o <;> by_cases h3 : n ≤ r + o - 1 <;>
-    (simp [rIte, rAnd, rOr, rNot, rGe, rGt, rLe, rLt, rEq, rNe, rAdd, rSub, Res.bind, h1, h2, h3] <;> try omega)
+  kernel_eq
 
 theorem gen_col_insert (n r o : Nat) : column_adjustment_insert_value n r o = .ok (adjInsV n r o) := by
   unfold column_adjustment_insert_value adjInsV
-  by_cases h1 : n ≥ r <;> (simp [rIte, rAnd, rOr, rNot, rGe, rGt, rLe, rLt, rEq, rNe, rAdd, rSub, Res.bind, h1] <;> try omega)
+  kernel_eq
 
 theorem gen_col_remove (n r o : Nat) : column_adjustment_remove_value n r o = adjRemV n r o := by
   unfold column_adjustment_remove_value adjRemV
-  by_cases h1 : n ≥ r <;> by_cases h3 : o ≤ n <;> (simp [rIte, rAnd, rOr, rNot, rGe, rGt, rLe, rLt, rEq, rNe, rAdd, rSub, Res.bind, h1, h3] <;> try omega)
+  kernel_eq
 
 theorem gen_col_is_remove (n r o : Nat) : column_is_remove_value n r o = isRemV n r o := by
   unfold column_is_remove_value isRemV
-  by_cases h1 : n ≥ r <;> by_cases h2 : 1 ≤ r + o <;> by_cases h3 : n ≤ r + o - 1 <;>
-    (simp [rIte, rAnd, rOr, rNot, rGe, rGt, rLe, rLt, rEq, rNe, rAdd, rSub, Res.bind, h1, h2, h3] <;> try omega)
+  kernel_eq
 
 end Umya.Gen
